@@ -105,7 +105,7 @@ def plan(tier, seed):
     shards = []
     for u in unis:
         nn = 16 if (tier == "thorough" and u == "sparse") else n     # the deep (k=2) universe gets more shards
-        shards += [{"universe": u, "index": i, "count": nn} for i in range(nn)]
+        shards += [{"universe": u, "index": i, "count": nn, "first_index": (0, -1)[i % 2]} for i in range(nn)]
     return {"shards": shards}
 
 
@@ -115,6 +115,7 @@ def run_shard(sh):
     from mc import env
     ref = Conf()
     W = worlds.World(ref, worlds.universes(ref, "thorough")[sh["universe"]], sh["universe"])
+    first = worlds.touch_first(W.names[sh.get("first_index", 0)])
     errs = rstore.bind_sources(W.sources, ref)
     if errs:
         raise RuntimeError("source description does not match the routing code: " + "; ".join(errs))
@@ -140,14 +141,15 @@ def run_shard(sh):
         rec.case(cls, cls == "get_last:found", sample=[sh["universe"], "get_last", s, key])
         for x in v:
             rec.violation(x["signature"], "get_last", [sh["universe"], s, key], x["observed"], x["expected"])
-    rec.extra = {"universe": sh["universe"], "entities": len(W.leaves)}
-    return rec.result()
+    rec.extra = {"universe": sh["universe"], "entities": len(W.leaves), "first_loaded": first}
+    return worlds.tag_first(rec.result(), first)
 
 
 def replay_case(kind, case):
     from mc.ref.model import Conf
     from mc import env
     ref = Conf()
+    worlds.touch_first()
     W = worlds.World(ref, worlds.universes(ref, "thorough")[case[0]], case[0])
     W.materialize()
     env.reset()
